@@ -21,11 +21,11 @@ import (
 
 // Stmt is one statement of the session.
 type Stmt struct {
-	Kind  string   `json:"kind"`  // simple expr exprnone compound bracket triple backslash semi comment syntaxerr blocksyntaxerr runtimeerr
-	Lines []string `json:"lines"` // physical lines
-	Blank int      `json:"blank"` // extra blank lines fed after the statement (besides the terminator)
-	BlankWS string `json:"blank_ws,omitempty"` // what an extra blank line consists of ("" or whitespace only)
-	Ticks []int    `json:"ticks"` // tick ids the statement contains (informational)
+	Kind    string   `json:"kind"`               // simple expr exprnone compound bracket triple backslash semi comment syntaxerr blocksyntaxerr runtimeerr
+	Lines   []string `json:"lines"`              // physical lines
+	Blank   int      `json:"blank"`              // extra blank lines fed after the statement (besides the terminator)
+	BlankWS string   `json:"blank_ws,omitempty"` // what an extra blank line consists of ("" or whitespace only)
+	Ticks   []int    `json:"ticks"`              // tick ids the statement contains (informational)
 }
 
 type Scenario struct {
@@ -733,4 +733,17 @@ func firstLine(s string) string {
 		s = s[:100]
 	}
 	return s
+}
+
+func (Engine) Text(sci interface{}) string {
+	var b strings.Builder
+	for _, st := range sci.(*Scenario).Stmts {
+		for _, l := range st.Lines {
+			b.WriteString(">>> " + l + "\n")
+		}
+		if len(st.Lines) > 1 {
+			b.WriteString(">>> \n")
+		}
+	}
+	return b.String()
 }
